@@ -383,12 +383,16 @@ pub fn valid_program(us: &[u16], l: usize, max_fn: usize, max_arity: usize, n: u
         v
     };
     // model names: a random arrangement of l pool names
-    let mut pool: Vec<&str> = NAME_POOL.to_vec();
+    // (large models, l > 14, get additional generated names p14, p15, ...)
+    let mut pool: Vec<String> = NAME_POOL.iter().map(|s| s.to_string()).collect();
+    for i in pool.len()..l {
+        pool.push(format!("p{i}"));
+    }
     for i in 0..pool.len() {
         let r = i + pick(next(), pool.len() - i);
         pool.swap(i, r);
     }
-    let model: Vec<String> = pool[..l].iter().map(|s| s.to_string()).collect();
+    let model: Vec<String> = pool[..l].to_vec();
     let nfn = 1 + pick(next(), max_fn);
     // parametrised functions: ordered subsets; make sure every parameter is covered
     let mut fn_names: Vec<Vec<String>> = vec![];
